@@ -28,7 +28,7 @@ def streams(tier, seed):
             pool = [c[0] - 1, c[0], c[n // 2], c[-1], c[-1] + 2, (c[0] + c[-1]) / 2]
             regs = [tuple(sorted(rng.sample(pool, 2))) for _ in range(rng.randint(1, 4))]
             out.append([a, op_integrate(a, dim, regs)])
-            out.append([a, op_integrate(a, dim, [regs[0]], bare=True)])
+            out.append([a, op_integrate(a, dim, [regs[0]], bare=["tuple", "list"][len(out) % 2])])
         # enumerated non-uniform ascending axes: every increment pattern over {1,2,3} (quick: length 4; thorough: 3-5)
         if _ == 0:
             import itertools as _it
